@@ -3,6 +3,7 @@ package nbtns
 import (
 	"io"
 	"net"
+	"runtime"
 	"time"
 )
 
@@ -238,6 +239,118 @@ func H_C18_udp_two_datagrams() {
 		if err == nil {
 			vCheck(resp.Header.TransactionID == ids[i], "udp2/each-response-carries-its-own-request-id")
 		}
+	}
+	vCover("end")
+}
+
+// receive loops: two datagrams are queued before the loop starts, so the loop reads the second one before the handler of
+// the first has run (goroutines run when their creator blocks; natively: GOMAXPROCS(1)). Each request must still be
+// answered from its own bytes: the two responses carry the two different transaction ids.
+func c18twoQueries(cli *net.UDPConn, to *net.UDPAddr) [2]uint16 {
+	var ids [2]uint16
+	ids[0], ids[1] = vU16("txid0"), vU16("txid1")
+	vAssume(ids[0] != ids[1])
+	for i := 0; i < 2; i++ {
+		p := &NBTNSPacket{Header: NBTNSHeader{TransactionID: ids[i], Flags: 0, Questions: 1}}
+		p.Questions = append(p.Questions, NBTNSQuestion{Name: &NetBIOSName{Name: "ALPHA"}, Type: 0x20, Class: 1})
+		raw, _ := p.Marshal()
+		cli.WriteToUDP(raw, to)
+	}
+	return ids
+}
+
+func c18twoResponses(cli *net.UDPConn, ids [2]uint16, tag string) {
+	buf := make([]byte, 600)
+	var seen [2]bool
+	for i := 0; i < 2; i++ {
+		cli.SetReadDeadline(time.Now().Add(2 * time.Second))
+		n, _, err := cli.ReadFromUDP(buf)
+		vCheck(err == nil, tag+"/a-response-per-request")
+		if err != nil {
+			return
+		}
+		var resp NBTNSPacket
+		_, err = resp.Unmarshal(buf[:n])
+		vCheck(err == nil, tag+"/response-parses")
+		if err != nil {
+			return
+		}
+		k := -1
+		if resp.Header.TransactionID == ids[0] {
+			k = 0
+		} else if resp.Header.TransactionID == ids[1] {
+			k = 1
+		}
+		vCheck(k >= 0, tag+"/response-id-is-a-request-id")
+		if k >= 0 {
+			vCheck(!seen[k], tag+"/each-request-answered-from-its-own-bytes")
+			seen[k] = true
+		}
+	}
+}
+
+func H_C18_udp_serve_isolation() {
+	runtime.GOMAXPROCS(1)
+	table := c18table(true)
+	srv, err1 := net.ListenUDP("udp", &net.UDPAddr{IP: net.IPv4(127, 0, 0, 1)})
+	cli, err2 := net.ListenUDP("udp", &net.UDPAddr{IP: net.IPv4(127, 0, 0, 1)})
+	if err1 != nil || err2 != nil {
+		return
+	}
+	defer cli.Close()
+	s := &UDPServer{nbtns: table, conn: srv, handlers: NewPacketHandler(table), quit: make(chan struct{})}
+	ids := c18twoQueries(cli, srv.LocalAddr().(*net.UDPAddr))
+	s.wg.Add(1)
+	go s.serve()
+	time.Sleep(300 * time.Millisecond)
+	c18twoResponses(cli, ids, "udp-serve")
+	close(s.quit)
+	srv.Close()
+	vCover("end")
+}
+
+func H_C18_server_serve_isolation() {
+	runtime.GOMAXPROCS(1)
+	table := c18table(true)
+	srv, err1 := net.ListenUDP("udp", &net.UDPAddr{IP: net.IPv4(127, 0, 0, 1)})
+	cli, err2 := net.ListenUDP("udp", &net.UDPAddr{IP: net.IPv4(127, 0, 0, 1)})
+	if err1 != nil || err2 != nil {
+		return
+	}
+	defer cli.Close()
+	s := &Server{nbtns: table, listener: srv, quit: make(chan struct{})}
+	ids := c18twoQueries(cli, srv.LocalAddr().(*net.UDPAddr))
+	s.wg.Add(1)
+	go s.serve()
+	time.Sleep(300 * time.Millisecond)
+	c18twoResponses(cli, ids, "server-serve")
+	close(s.quit)
+	srv.Close()
+	vCover("end")
+}
+
+// the third server variant (server.go): the same routing obligations as the UDP and TCP servers
+func H_C18_server_packet() {
+	op, pre := vParam("op"), vParam("pre") == 1
+	req, id := c18request(op)
+	raw, err := req.Marshal()
+	vCheck(err == nil, "server/request-marshals")
+	table := c18table(pre)
+	srv, err1 := net.ListenUDP("udp", &net.UDPAddr{IP: net.IPv4(127, 0, 0, 1)})
+	cli, err2 := net.ListenUDP("udp", &net.UDPAddr{IP: net.IPv4(127, 0, 0, 1)})
+	if err1 != nil || err2 != nil {
+		return
+	}
+	defer srv.Close()
+	defer cli.Close()
+	s := &Server{nbtns: table, listener: srv, quit: make(chan struct{})}
+	s.handlePacket(raw, cli.LocalAddr().(*net.UDPAddr))
+	buf := make([]byte, 600)
+	cli.SetReadDeadline(time.Now().Add(2 * time.Second))
+	n, _, err := cli.ReadFromUDP(buf)
+	vCheck(err == nil, "server/a-response-is-sent")
+	if err == nil {
+		c18judge(op, pre, table, buf[:n], id, "server")
 	}
 	vCover("end")
 }
